@@ -168,8 +168,8 @@ impl CaseReport {
             "case_seed" => format!("{:#x}", self.case_seed),
             "config" => self.desc.clone(),
             "replay_cmd" => format!(
-                "harness/target/release/simcheck --property {} --replay {}:{}:{:#x} --dump-log",
-                property, self.family, self.index, self.case_seed
+                "harness/target/release/simcheck --property {} --seed {} --replay {}:{}:{:#x} --dump-log",
+                property, seed, self.family, self.index, self.case_seed
             ),
             "violations" => J::Arr(self.violations.iter().map(|v| crate::jobj!{
                 "property" => v.property, "rule" => v.rule, "signature" => v.signature.clone(),
